@@ -410,6 +410,25 @@ def run(chk):
     ok = why is None and fcalls and tuple(total) == (1, 0)
     canonical = len(loops) == 1 and isinstance(loops[0], ast.For) and isinstance(loops[0].iter, ast.Call) and call_name(loops[0].iter) == "range" and len(loops[0].iter.args) == 1 and is_self_attr(loops[0].iter.args[0], "_attempts") and len(fcalls) == 1 and any(y is fcalls[0] for y in ast.walk(loops[0]))
     r1.expect(ok or why is not None, "invocations of the delegate are bounded by %d*attempts%+d" % tuple(total), "RetryingClient._retry:loop-bound", "the call sites of the delegate allow %d*attempts%+d invocations, not exactly `attempts`: more or fewer than `attempts` invocations become possible" % tuple(total), fn=rt, node=loops[0] if loops else rt.node)
+    # ------------------------------------------------------------------ R7 every call starts from the configuration
+    r7 = chk.rule("C17.R7", "every call starts from the configured state: _retry and __getattr__ write no instance state, and no attribute set by the constructor is a one-shot iterator that calls would use up between them")
+    ONE_SHOT = ("iter", "map", "filter", "zip", "reversed", "enumerate", "repeat", "cycle", "count", "chain", "islice", "takewhile", "dropwhile", "accumulate", "starmap", "tee", "zip_longest", "product", "permutations", "combinations")
+    init_f = prog.method(rc, "__init__")
+    for n in walk_no_nested(init_f.node):
+        if isinstance(n, (ast.Assign, ast.AnnAssign)) and n.value is not None:
+            tg = n.targets if isinstance(n, ast.Assign) else [n.target]
+            v = n.value
+            lazy = isinstance(v, ast.GeneratorExp) or (isinstance(v, ast.Call) and call_name(v).split(".")[-1] in ONE_SHOT)
+            for t in tg:
+                if is_self_attr(t) and lazy:
+                    r7.fail("RetryingClient.__init__:one-shot-iterator:%s" % t.attr, "self.%s is set to `%s`, an iterator that can be walked once: the calls made through this client share it, so what one call consumes (delays, attempts) is missing from the next" % (t.attr, node_src(v)), fn=init_f, node=n)
+    for f in (rt, prog.method(rc, "__getattr__")):
+        writes = [n for n in ast.walk(f.node) if (isinstance(n, ast.Attribute) and isinstance(n.ctx, (ast.Store, ast.Del)) and is_self_attr(n)) or (isinstance(n, ast.Subscript) and isinstance(n.ctx, (ast.Store, ast.Del)) and is_self_attr(n.value))]
+        from .report import memory_between_calls
+
+        mem = memory_between_calls(f)
+        what = ("writes `%s`" % node_src(writes[0])) if writes else (mem[0][1] if mem else "")
+        r7.expect(not writes and not mem, "%s writes no instance or module state" % f.qualname, "%s:writes-state" % f.qualname, "%s %s: the outcome of a call depends on the calls made before it" % (f.qualname, what), fn=f, node=(writes[0] if writes else mem[0][0]) if (writes or mem) else f.node)
     r6 = chk.rule("C17.R6", "end to end for attempts = 1..3: for every filter configuration and every script of delegate outcomes, _retry makes the specified calls and sleeps and hands out the specified result or exception (any loop structure)")
     retry_rows(prog, rt, r6, chk.tier)
     if not ok:
